@@ -221,6 +221,15 @@ func (fr *Frame) next(st *State, in *ssa.Next) {
 	c.assume(implies(and(st.Reach, same, ok), x.ltIdx(cnt, ln)))
 	c.assume(implies(and(st.Reach, same, not(ok)), eq(cnt, ln)))
 	x.set(st, ik, ite(ok, x.addIdx(cnt, c.idx(1)), cnt))
+	// ghost set of the keys produced so far: a produced key is new; when the iteration ends every key still in the map
+	// has been produced (Go's map iteration semantics; entries deleted meanwhile are simply not produced)
+	vk := mapVisitedKey(rng, c.sortOf(mt.Key()))
+	vis := x.get(st, vk)
+	c.assume(implies(and(st.Reach, ok), not(sx("select", vis, k))))
+	q := c.fresh("vk")
+	c.assume(implies(and(st.Reach, not(ok)), fmt.Sprintf("(forall ((%s %s)) (! (=> %s (select %s %s)) :pattern ((select %s %s))))",
+		q, c.sortOf(mt.Key()), and(not(eq(m, "nil")), sx("select", sx("select", x.get(st, md), m), q)), vis, q, vis, q)))
+	x.set(st, vk, ite(ok, sx("store", vis, k, "true"), vis))
 }
 
 func (x *Exec) assumeAllocatedDeep(st *State, t types.Type, v string) {
